@@ -253,6 +253,8 @@ class C03(Check):
             dp, dv = float(np.linalg.norm(d["state"][:3] - ref[:3])), float(np.linalg.norm(d["state"][3:] - ref[3:]))
             REL_POS, REL_VEL = limits(k * step, ref)
             name = "one_call" if d["kind"] == "one-call" else "start_date_offset"
+            if d["kind"] == "offset" and d.get("acc_unavailable"):
+                cnt["acceleration_probe_unavailable"] = cnt.get("acceleration_probe_unavailable", 0) + 1
             if d["kind"] == "offset":
                 # Julian dates resolve 40 us: the two descriptions of an epoch can differ by ~1e-4 s, i.e. 1e-8 rad of Earth rotation acting on
                 # tesseral terms of ~1e-6 of the central acceleration; a slip of a quarter second is a thousand times that
@@ -358,18 +360,23 @@ class C03(Check):
                     # same absolute epochs, stepped like the base run so that only the description of the epoch differs
                     x = x0.copy()
                     worst = 0.0
+                    unavailable = False
                     for k in range(n):
                         # the force itself, at the same state and absolute epoch (the trajectory comparison is blunted by the integrator's own
                         # step-size noise; this one is a function-level relation, rounding only)
-                        a0 = np.asarray(agent.dynamics._differentialEquation(float(k * step), x.copy(), check_collision=False), dtype=float)[3:]  # noqa: SLF001
-                        a1 = np.asarray(twin._differentialEquation(float(off + k * step), x.copy(), check_collision=False), dtype=float)[3:]  # noqa: SLF001
-                        # how fast the acceleration changes with the epoch at this state (finite difference over 1 ms): the two descriptions of the
-                        # epoch agree to the resolution of Julian dates (three roundings of 2e-5 s), a slip of a quarter second is 1000x that
-                        a2 = np.asarray(agent.dynamics._differentialEquation(float(k * step) + 1e-3, x.copy(), check_collision=False), dtype=float)[3:]  # noqa: SLF001
-                        allowed = float(np.linalg.norm(a2 - a0)) / 1e-3 * 2e-4 + 1e-14 * float(np.linalg.norm(a0))
-                        worst = max(worst, float(np.linalg.norm(a1 - a0)) / allowed)
+                        try:
+                            a0 = np.asarray(agent.dynamics._differentialEquation(float(k * step), x.copy(), check_collision=False), dtype=float)[3:]  # noqa: SLF001
+                            a1 = np.asarray(twin._differentialEquation(float(off + k * step), x.copy(), check_collision=False), dtype=float)[3:]  # noqa: SLF001
+                            # how fast the acceleration changes with the epoch at this state (finite difference over 1 ms): the two descriptions of the
+                            # epoch agree to the resolution of Julian dates (three roundings of 2e-5 s), a slip of a quarter second is 1000x that
+                            a2 = np.asarray(agent.dynamics._differentialEquation(float(k * step) + 1e-3, x.copy(), check_collision=False), dtype=float)[3:]  # noqa: SLF001
+                            allowed = float(np.linalg.norm(a2 - a0)) / 1e-3 * 2e-4 + 1e-14 * float(np.linalg.norm(a0))
+                            worst = max(worst, float(np.linalg.norm(a1 - a0)) / allowed)
+                        except Exception:  # noqa: BLE001 - the derivative is not a public entry point: if it cannot be called on its own, only trajectories are compared
+                            worst = max(worst, 0.0)
+                            unavailable = True
                         x = np.asarray(twin.propagate(off + k * step, off + (k + 1) * step, x), dtype=float).reshape(-1)[:6]
-                    results.append({"kind": "offset", "offset": off, "target": t["id"], "state": x, "acc_rel": worst})
+                    results.append({"kind": "offset", "offset": off, "target": t["id"], "state": x, "acc_rel": worst, "acc_unavailable": unavailable})
         return results
 
     def _bulk(self, app, cfg):
